@@ -197,6 +197,19 @@ class RegionListCell:
         return RegionListCell(self.region)
 
 
+class ElemListCell:
+    """A Python list whose items are objects of ONE heap region: the keys of the items as an integer sequence (any length)."""
+
+    __slots__ = ("region", "keys")
+
+    def __init__(self, region, keys):
+        self.region = region      # Ref of the region's MapCell
+        self.keys = keys          # SeqV("list", "int", ...)
+
+    def copy(self):
+        return ElemListCell(self.region, self.keys)
+
+
 class MapElem:
     """The object stored under a (symbolic) key of a reference-valued MapCell; attribute reads/writes go to the
     map's field arrays at that key, so two keys that are equal denote the same object."""
